@@ -28,8 +28,12 @@ try:
     for f, old, new in a.edit:
         p = os.path.join(base, f)
         s = open(p).read()
-        old = old.encode().decode("unicode_escape") if "\\n" in old else old
-        new = new.encode().decode("unicode_escape") if "\\n" in new else new
+        if s.count(old) != a.count and "\\n" in old:
+            # legacy spelling: a literal backslash-n in the pattern stands for a newline
+            old2 = old.encode().decode("unicode_escape")
+            if s.count(old2) == a.count:
+                old = old2
+                new = new.encode().decode("unicode_escape") if "\\n" in new else new
         if s.count(old) != a.count:
             print(f"drill: {f}: pattern occurs {s.count(old)} times, expected {a.count}")
             sys.exit(3)
